@@ -23,7 +23,7 @@ CONFIG = {
              'the failed build (result, tree, invocations); evaluations = injected runs; '
              'distinct_nontrivial = distinct (program shape, prior step kinds, crash label class, '
              'had-cache?, reused-before-crash?)'),
-    'gates': ['swap_cases', 'swap_cases_rolled_back', 'crash_runs', 'cachewrite_fault_runs', 'crash_after_reuse', 'crash_with_backup'],
+    'gates': ['many_backup_runs', 'swap_cases', 'swap_cases_rolled_back', 'crash_runs', 'cachewrite_fault_runs', 'crash_after_reuse', 'crash_with_backup'],
 }
 
 NEXT_KINDS = {'result', 'tree', 'extra_invocation', 'query', 'reused_output_rewritten', 'missing_invocation'}
@@ -35,6 +35,8 @@ def run_shard(sh):
     run_swap_cases(sh, lambda d: d['kind'] in ROLLBACK_KINDS | NEXT_KINDS | {'foreign_changed', 'foreign_event'},
                    'C02', crash_points=True, nested_cache=sh.idx % 2 == 1)
     rng = random.Random((sh.seed * 1000003 + sh.idx) & 0xffffffff)
+    if sh.idx % 8 == 0:
+        many_backups(sh, rng)
     maxk = 30 if sh.tier == 'quick' else 200
     while sh.time_left() > 0:
         cfg = GenCfg()
@@ -134,3 +136,38 @@ def run_shard(sh):
             finally:
                 w.discard(tok)
         sh.count('programs')
+
+
+def many_backups(sh, rng):
+    """more than 128 files moved aside in one build (the backup area is laid out in
+    sub-directories of 128), then a failure: every one must be restored"""
+    n = rng.choice([129, 140, 260])
+    funcs = {'F': {'kind': 'bf', 'idx': 1, 'body': [['write', 'new']]}}
+    body = [['bf', 'o/f%03d' % i, 'F', {'catch': False, 'args': [i]}] for i in range(n)]
+    program = {'funcs': funcs, 'roots': [body, body + [['raise', 'root']]]}
+    with Scratch('k') as sc:
+        w = World(sc)
+        variant = rng.choice(['foreign', 'stale-outputs'])
+        if variant == 'stale-outputs':
+            sr = w.build(program, program['roots'][0], {}, label=0)
+            if sr.divs:
+                return
+            for i in range(n):
+                w.ext_write('o/f%03d' % i, ('tampered %d' % i).encode())
+        else:
+            for i in range(n):
+                w.ext_write('o/f%03d' % i, ('foreign %d' % i).encode())
+        sr = w.build(program, program['roots'][1], {}, label=1)
+        sh.evaluations += 1
+        sh.count('many_backup_runs')
+        nren = sum(1 for e in sr.mon.events if e['ev'] == 'os.rename' and not e['user'])
+        sh.count('many_backup_renames', nren)
+        sh.nt(('many-backups', n, variant))
+        for d in sr.divs:
+            if d['kind'] in ROLLBACK_KINDS | {'foreign_changed'}:
+                sh.violation(signature(d) + '|many-backups', detail(d), case_of(w, program))
+                return
+        sr2 = w.build(program, program['roots'][0], {}, label=0)
+        for d in sr2.divs:
+            if d['kind'] in NEXT_KINDS:
+                sh.violation('after_rollback|' + signature(d) + '|many-backups', detail(d), case_of(w, program))
